@@ -649,7 +649,7 @@ def sink_work(shard, nshards, payload):
             t.distinct.add(("sink", name, e))
             case = {"id": f"sink/{name}/{e}", "source": src, "expected": want, "embedded": got}
             if got is None:
-                t.violation(f"sink:accepted-but-not-embedded:{name}", case)
+                t.inc("sink_not_embedded")      # left to run time (not folded): C03 judges what is embedded, C04 that it lands somewhere
             elif kind == "int":
                 if not (re.fullmatch(r"-?\d+", got) and int(got) == want):
                     t.violation(f"sink:value:{name}", case)
@@ -688,7 +688,7 @@ def main(tier, t0):
         "not_embedded_dynamic": c.get("not-embedded-dynamic", 0),
         "typing_probes": c.get("typing-probes", 0),
         "sink_positions": {"positions": len(SINK_POSITIONS), "documents": c.get("sink_documents", 0),
-                           "refused_by_the_position": c.get("sink_refused", 0)},
+                           "refused_by_the_position": c.get("sink_refused", 0), "left_to_run_time": c.get("sink_not_embedded", 0)},
     }
     assumptions = [
         "integers are 64-bit signed; value outside => undefined => must be rejected; shift counts outside "
